@@ -89,6 +89,8 @@ CFListFails(e) ==
 
 XLayerFails(e) ==
   LET lay == Layout(e.dir, e.cid) IN
+  IF e.what = "added-channel-nc" /\ ~Representable(lay, e.val) THEN Tag(e.err = "error", "C15.encodable")   \* refused, never altered
+  ELSE
   Tag(e.err = "" /\ e.berr = "" /\ "back" \in DOMAIN e /\ e.back = e.val /\ e.bytes = EncodeLayout(lay, e.val), "C15.encodable")
 
 Max2(a, b) == IF a >= b THEN a ELSE b
